@@ -48,8 +48,11 @@ CONSTANTS Streams,        \* set of frame sequences explored (MC module)
           BATCH,          \* HEADER_BATCH_SIZE = 32
           CHUNK,          \* attachment chunk = 48 000
           MaxBlockSize,   \* msg.rs max_block_size() = max_block_weight / 21 * 708
-          TimeoutPerChunk \* TRUE: `set_stream_timeout` runs before every `read_exact` (codec.rs);
+          TimeoutPerChunk,\* TRUE: `set_stream_timeout` runs before every `read_exact` (codec.rs);
                           \* FALSE: once per `read` call (probe configuration only)
+          SerErrorsFatal  \* TRUE: every error returned by `read` ends the reader loop of conn.rs
+                          \* (`try_break!`); FALSE: Error::Serialization is skipped like a timeout
+                          \* (probe configuration only, see CodecConn.tla)
 
 VARIABLES stream, avail, pos, buf, pre, pend, nl, st, pc, want, out, halted, done, tmo, sil
 vars == <<stream, avail, pos, buf, pre, pend, nl, st, pc, want, out, halted, done, tmo, sil>>
@@ -275,9 +278,14 @@ Eof == /\ Running /\ pc = "read" /\ avail = pos /\ avail = Total(stream)
                /\ halted' = TRUE /\ UNCHANGED done
        /\ UNCHANGED <<stream, avail, pos, pre, nl, st, want, tmo, sil>>
 
+\* errors that `read` reports as Error::Serialization: a refused frame header (magic, length
+\* above the limit) and a body / block header that does not decode
+SerWhy == {"magic", "toolarge", "decode", "desync"}
+FatalRes(res) == res.r = "err" /\ (SerErrorsFatal \/ res.why \notin SerWhy)
+
 Return(res, newst, newbuf, w) ==
   /\ out' = Append(out, res) /\ st' = newst /\ buf' = newbuf /\ want' = w
-  /\ pc' = "call" /\ halted' = (res.r = "err")
+  /\ pc' = "call" /\ halted' = FatalRes(res)
   /\ UNCHANGED <<stream, avail, pos, pre, pend, nl, done, tmo, sil>>
 
 Continue(newst, newbuf) ==
